@@ -286,14 +286,24 @@ def mutate_xml(rng, x):
 # ---------------------------------------------------------------------------
 # correspondence
 
-def corr(ctx, nmods):
+def corr(ctx, nmods, batch=12):
+    """Correspondence in batches of [batch] modules (one Coq evaluation per codec and batch); the
+    fixture module is module 0 of the first batch."""
+    done = 0
+    while done < nmods + 1:
+        n = min(batch, nmods + 1 - done)
+        corr_batch(ctx, range(done, done + n))
+        done += n
+
+
+def corr_batch(ctx, indices):
     rng = ctx.rng
     envdefs = []
     tables = {}
     for codec in ('jer', 'xer'):
         tables[codec] = {'enc': [], 'dec': []}
 
-    for mi in range(nmods + 1):
+    for mi in indices:
         mod, text, g = G.fixture(rng) if mi == 0 else G.generate(rng, opts_for(rng, ctx.quick))
         rt = G.make_resolver(mod)
         for numeric in (False, True):
@@ -418,8 +428,11 @@ Definition dec_cases : list ((xenv * string * %s) * result xvalue) := %s.
 Eval vm_compute in mismatches (result_eqb xvalue_eqb) dec_case dec_cases.
 ''' % (tree_ty, to_coq([(a, b) for a, b, _ in table['enc']]), tree_ty, to_coq([(a, b) for a, b, _ in table['dec']]))
     bad_enc, bad_dec = ctx.coq_eval('corr_' + codec, IMPORTS, body)
-    ctx.extra['corr_%s' % codec] = dict(enc_cases=len(table['enc']), dec_cases=len(table['dec']),
-                                        enc_disagree=len(bad_enc), dec_disagree=len(bad_dec))
+    tot = ctx.extra.setdefault('corr_%s' % codec, dict(enc_cases=0, dec_cases=0, enc_disagree=0, dec_disagree=0))
+    tot['enc_cases'] += len(table['enc'])
+    tot['dec_cases'] += len(table['dec'])
+    tot['enc_disagree'] += len(bad_enc)
+    tot['dec_disagree'] += len(bad_dec)
     ctx.log('corr %s: %d encode cases, %d decode cases, disagreements %d / %d' % (
         codec, len(table['enc']), len(table['dec']), len(bad_enc), len(bad_dec)))
     picked = [(which, i) for which, bad in (('enc', bad_enc), ('dec', bad_dec)) for i in bad[:4]]
